@@ -721,21 +721,36 @@ ComponentNameMap createComponentNamesMap(const ComponentPtr &component)
     return nameMap;
 }
 
-std::vector<UnitsPtr> referencedUnits(const ModelPtr &model, const UnitsPtr &units)
+std::vector<UnitsPtr> referencedUnits(const ModelPtr &model, const UnitsPtr &units, std::vector<UnitsPtr> &path)
 {
     std::vector<UnitsPtr> requiredUnits;
+
+    // Do not follow units that are defined in terms of themselves.
+    if (std::find(path.begin(), path.end(), units) != path.end()) {
+        return requiredUnits;
+    }
+    path.push_back(units);
 
     for (size_t index = 0; index < units->unitCount(); ++index) {
         const std::string ref = units->unitAttributeReference(index);
         if (!isStandardUnitName(ref)) {
             auto refUnits = model->units(ref);
-            auto requiredUnitsUnits = referencedUnits(model, refUnits);
+            auto requiredUnitsUnits = referencedUnits(model, refUnits, path);
             requiredUnits.insert(requiredUnits.end(), requiredUnitsUnits.begin(), requiredUnitsUnits.end());
             requiredUnits.push_back(refUnits);
         }
     }
 
+    path.pop_back();
+
     return requiredUnits;
+}
+
+std::vector<UnitsPtr> referencedUnits(const ModelPtr &model, const UnitsPtr &units)
+{
+    std::vector<UnitsPtr> path;
+
+    return referencedUnits(model, units, path);
 }
 
 std::vector<UnitsPtr> unitsUsed(const ModelPtr &model, const ComponentConstPtr &component)
